@@ -17,3 +17,19 @@ contract("C08.find_non_matching_braces",
              "(len(issues) == 0) == no_brace_fault_before(hed_string, _n)",
              "all(0 <= issues[k] < _n and (hed_string[issues[k]] == '{' or hed_string[issues[k]] == '}') for k in range(len(issues)))",
          ]}})
+
+# ---- C08/C12: sidecar validation keeps the error-context stack balanced on every path (labels of later issues stay true)
+SC = "hed/validator/sidecar_validator.py"
+G = {"vars": {"ctx_depth0": "Int"}, "init": {"ctx_depth": "ctx_depth0"}, "no_frame": True}
+BAL = {"C08.context.stack_balanced": "ctx_depth == ctx_depth0"}
+NOTE = ["loops explored as one arbitrary iteration from a havocked state (sound for the ghost balance); values opaque"]
+for _name, _params in (
+        ("validate_structure", {"self": "Opaque", "sidecar": "Opaque", "error_handler": "ErrorHandlerCtx"}),
+        ("_validate_refs", {"self": "Opaque", "sidecar": "Opaque", "error_handler": "ErrorHandlerCtx"}),
+        ("_validate_categorical_column", {"self": "Opaque", "column_name": "Opaque", "dict_for_entry": "Opaque",
+                                          "error_handler": "ErrorHandlerCtx"}),
+        ("_check_definitions_bad_spot", {"self": "Opaque", "definition_checks": "Opaque", "error_handler": "ErrorHandlerCtx"}),
+        ("validate", {"self": "Opaque", "sidecar": "Opaque", "extra_def_dicts": "Opaque", "name": "Opaque",
+                      "error_handler": "ErrorHandlerCtx"})):
+    contract(f"C08.context.{_name.strip('_')}", file=SC, func=f"SidecarValidator.{_name}", params=_params, returns="Opaque",
+             enc="native", ghost=G, ensures=BAL, unwind="havoc", assume=NOTE, prop="C08")
